@@ -27,3 +27,17 @@ package verifier
 //@ loop 1 invariant numOKResults < len(certResults)-1-i ==> exists(j, i+1, len(certResults), !okRes(certResults[j]) && finalResult == certResults[j].Result && problematicCertSubject == subjectString(certChain[j]))
 //@ loop 1 invariant numOKResults == len(certResults)-1-i ==> finalResult == revocationresult.ResultUnknown
 //@ loop 1 decreases i + 1
+
+//@ pure func chainOf(o *notation.VerificationOutcome) []*x509.Certificate = o.EnvelopeContent.SignerInfo.CertificateChain
+//@ pure func revTime(o *notation.VerificationOutcome) time.Time = ite(o.EnvelopeContent.SignerInfo.SignedAttributes.SigningScheme == signature.SigningSchemeX509SigningAuthority, authSigningTime(&o.EnvelopeContent.SignerInfo), zero(time.Time))
+//@ pure func revOpts(o *notation.VerificationOutcome) revocation.ValidateContextOptions = revocation.ValidateContextOptions{CertChain: chainOf(o), AuthenticSigningTime: revTime(o)}
+//@ pure func outcomeWF(o *notation.VerificationOutcome) bool = o != nil && o.EnvelopeContent != nil && o.VerificationLevel != nil && forall(j, 0, len(chainOf(o)), chainOf(o)[j] != nil)
+
+//@ func (*verifier).verifyRevocation
+//@ props C05 C02
+//@ requires v != nil && outcomeWF(outcome)
+//@ ensures[C02.shape] result != nil && result.Type == trustpolicy.TypeRevocation && result.Action == outcome.VerificationLevel.Enforcement[trustpolicy.TypeRevocation]
+//@ ensures[C05.novalidator] v.revocationCodeSigningValidator == nil && v.revocationClient == nil ==> result.Error != nil
+//@ ensures[C05.closed] v.revocationCodeSigningValidator != nil && result.Error == nil ==> vcErr(v.revocationCodeSigningValidator, revOpts(outcome)) == nil && forall(j, 0, len(chainOf(outcome)), okRes(vcRes(v.revocationCodeSigningValidator, revOpts(outcome))[j]))
+//@ ensures[C05.closed-deprecated] v.revocationCodeSigningValidator == nil && v.revocationClient != nil && result.Error == nil ==> rvErr(v.revocationClient, chainOf(outcome), revTime(outcome)) == nil && forall(j, 0, len(chainOf(outcome)), okRes(rvRes(v.revocationClient, chainOf(outcome), revTime(outcome))[j]))
+//@ ensures fresh(result)
